@@ -10,7 +10,7 @@ use vstd::prelude::*;
 verus! {
 //@prelude std_specs r32
 
-pub enum SvgdxError { MissingBoundingBox(String), InvalidData(String), Other }
+pub enum SvgdxError { MissingBoundingBox(String), InvalidData(String), InternalLogicError(String), Other }
 pub type Result<T> = core::result::Result<T, SvgdxError>;
 #[verifier::external_body] pub struct SvgElement { _p: u8 }
 #[verifier::external_body] pub struct Ctx { _p: u8 }
@@ -188,6 +188,64 @@ pub open spec fn vertical_dir(d: Direction) -> bool { d is Up || d is Down }
 /// consecutive points share a coordinate: every segment is axis-parallel
 pub open spec fn rectilinear(ps: Seq<(R32, R32)>) -> bool {
     forall|i: int| 0 <= i < ps.len() - 1 ==> val((#[trigger] ps[i]).0) == val(ps[i + 1].0) || val(ps[i].1) == val(ps[i + 1].1)
+}
+
+
+// ------------------------------------------------------------------------------ which points are joined
+/// every candidate of `e` is within float range of the point p
+pub open spec fn in_range(ctx: Ctx, e: SvgElement, c: ConnectionType, p: (real, real)) -> bool {
+    bbox_spec(ctx, e) is Some ==> forall|i: int| 0 <= i < candidates(c).len() ==> d2(loc_point(bbox_spec(ctx, e)->Some_0, #[trigger] candidates(c)[i]), p) < max_val()
+}
+pub open spec fn opt_pt(o: Option<(R32, R32)>) -> (real, real) { pt(o->Some_0) }
+impl Endpoint {
+//@item src/connector.rs :: impl Endpoint :: fn new
+//@ ensures
+//@ - r.origin == origin && r.dir == dir
+//@end
+}
+impl Connector {
+// the `match (start_point, end_point)` of Connector::from_element: from the parsed endpoint
+// specifications to the two points actually joined
+//@item src/connector.rs :: impl Connector :: fn from_element
+//@ fragment-name resolve_endpoints
+//@ fragment-from <<<        let (start, end) = match (start_point, end_point) {>>>
+//@ fragment-to <<<\n        };>>>
+//@ fragment-head <<<fn resolve_endpoints(start_point: Option<(f32, f32)>, end_point: Option<(f32, f32)>, start_el: Option<&SvgElement>, end_el: Option<&SvgElement>, start_loc_in: Option<LocSpec>, end_loc_in: Option<LocSpec>, start_dir_in: Option<Direction>, end_dir_in: Option<Direction>, conn_type: ConnectionType, elem_map: &Ctx) -> Result<(Endpoint, Endpoint)> {\n        let mut start_loc = start_loc_in;\n        let mut end_loc = end_loc_in;\n        let mut start_dir = start_dir_in;\n        let mut end_dir = end_dir_in;>>>
+//@ fragment-tail <<<        Ok((start, end))\n}>>>
+//@ requires
+//@ - start_point is Some && end_point is None && end_el is Some && end_loc_in is None ==> in_range(*elem_map, *end_el->Some_0, conn_type, opt_pt(start_point))
+//@ - start_point is None && end_point is Some && start_el is Some && start_loc_in is None ==> in_range(*elem_map, *start_el->Some_0, conn_type, opt_pt(end_point))
+//@ - start_point is None && end_point is None && start_el is Some && end_el is Some && start_loc_in is None && end_loc_in is Some && bbox_spec(*elem_map, *end_el->Some_0) is Some
+//@     ==> in_range(*elem_map, *start_el->Some_0, conn_type, loc_point(bbox_spec(*elem_map, *end_el->Some_0)->Some_0, end_loc_in->Some_0))
+//@ - start_point is None && end_point is None && start_el is Some && end_el is Some && end_loc_in is None && start_loc_in is Some && bbox_spec(*elem_map, *start_el->Some_0) is Some
+//@     ==> in_range(*elem_map, *end_el->Some_0, conn_type, loc_point(bbox_spec(*elem_map, *start_el->Some_0)->Some_0, start_loc_in->Some_0))
+//@ - start_point is None && end_point is None && start_el is Some && end_el is Some && start_loc_in is None && end_loc_in is None
+//@     && bbox_spec(*elem_map, *start_el->Some_0) is Some && bbox_spec(*elem_map, *end_el->Some_0) is Some ==>
+//@     forall|i: int, j: int| 0 <= i < candidates(conn_type).len() && 0 <= j < candidates(conn_type).len() ==>
+//@       dd(bbox_spec(*elem_map, *start_el->Some_0)->Some_0, bbox_spec(*elem_map, *end_el->Some_0)->Some_0, #[trigger] candidates(conn_type)[i], #[trigger] candidates(conn_type)[j]) < max_val()
+//@ ensures
+//@ - r is Ok && start_point is Some ==> pt(r->Ok_0.0.origin) == opt_pt(start_point)     @@C13.endpoint.literal
+//@ - r is Ok && end_point is Some ==> pt(r->Ok_0.1.origin) == opt_pt(end_point)     @@C13.endpoint.literal
+//@ - r is Ok && start_point is None ==> start_el is Some && bbox_spec(*elem_map, *start_el->Some_0) is Some
+//@ - r is Ok && end_point is None ==> end_el is Some && bbox_spec(*elem_map, *end_el->Some_0) is Some
+//@ - r is Ok && start_point is None && start_loc_in is Some ==> pt(r->Ok_0.0.origin) == loc_point(bbox_spec(*elem_map, *start_el->Some_0)->Some_0, start_loc_in->Some_0)     @@C13.endpoint.named
+//@ - r is Ok && end_point is None && end_loc_in is Some ==> pt(r->Ok_0.1.origin) == loc_point(bbox_spec(*elem_map, *end_el->Some_0)->Some_0, end_loc_in->Some_0)     @@C13.endpoint.named
+//@ - r is Ok && start_point is None && start_loc_in is None ==> exists|k: int| 0 <= k < candidates(conn_type).len()
+//@       && pt(r->Ok_0.0.origin) == loc_point(bbox_spec(*elem_map, *start_el->Some_0)->Some_0, #[trigger] candidates(conn_type)[k])     @@C13.endpoint.on_candidate
+//@ - r is Ok && end_point is None && end_loc_in is None ==> exists|k: int| 0 <= k < candidates(conn_type).len()
+//@       && pt(r->Ok_0.1.origin) == loc_point(bbox_spec(*elem_map, *end_el->Some_0)->Some_0, #[trigger] candidates(conn_type)[k])     @@C13.endpoint.on_candidate
+//@ - r is Ok && start_point is None && start_loc_in is None && (end_point is Some || end_loc_in is Some) ==>
+//@     forall|i: int| 0 <= i < candidates(conn_type).len() ==> d2(pt(r->Ok_0.0.origin), pt(r->Ok_0.1.origin))
+//@       <= d2(loc_point(bbox_spec(*elem_map, *start_el->Some_0)->Some_0, #[trigger] candidates(conn_type)[i]), pt(r->Ok_0.1.origin))     @@C13.endpoint.closest_to_other
+//@ - r is Ok && end_point is None && end_loc_in is None && (start_point is Some || start_loc_in is Some) ==>
+//@     forall|i: int| 0 <= i < candidates(conn_type).len() ==> d2(pt(r->Ok_0.1.origin), pt(r->Ok_0.0.origin))
+//@       <= d2(loc_point(bbox_spec(*elem_map, *end_el->Some_0)->Some_0, #[trigger] candidates(conn_type)[i]), pt(r->Ok_0.0.origin))     @@C13.endpoint.closest_to_other
+//@ - r is Ok && start_point is None && end_point is None && start_loc_in is None && end_loc_in is None ==>
+//@     forall|i: int, j: int| 0 <= i < candidates(conn_type).len() && 0 <= j < candidates(conn_type).len() ==> d2(pt(r->Ok_0.0.origin), pt(r->Ok_0.1.origin))
+//@       <= dd(bbox_spec(*elem_map, *start_el->Some_0)->Some_0, bbox_spec(*elem_map, *end_el->Some_0)->Some_0, #[trigger] candidates(conn_type)[i], #[trigger] candidates(conn_type)[j])     @@C13.endpoint.shortest_pair
+//@ - r is Ok && start_loc_in is Some ==> r->Ok_0.0.dir == start_dir_in
+//@ - r is Ok && end_loc_in is Some ==> r->Ok_0.1.dir == end_dir_in
+//@end
 }
 
 impl Connector {
